@@ -252,6 +252,35 @@ func clGCTryLock(c *Ctx) {
 		})
 		c.Check(released, fn, s, "isGCRunning released after collectDead", "a path leaves GC holding the collector flag: no later snapshot is ever collected")
 	}
+	// every path that WON the try-lock in GC() gives it back (also one that returns before collecting)
+	gfi := p.Info(gcFn)
+	isRelease := func(x ssa.Instruction) bool {
+		k, on := atomicOnField(x, fRun)
+		if !on {
+			return false
+		}
+		args := atomicArgs(x)
+		return (k == "CAS" && isConstInt(0)(args[2])) || (k == "Store" && isConstInt(0)(args[1]))
+	}
+	for _, in := range gfi.Instrs {
+		k, on := atomicOnField(in, fRun)
+		if !on || k != "CAS" || !isConstInt(0)(atomicArgs(in)[1]) || !isConstInt(1)(atomicArgs(in)[2]) {
+			continue
+		}
+		acq := in.(ssa.Value)
+		leak := gfi.PathAvoidingEdges(in, func(x ssa.Instruction) bool {
+			r, ok := x.(*ssa.Return)
+			return ok && r.Block() != gcFn.Recover
+		}, isRelease, func(pb, sb *ssa.BasicBlock) bool {
+			for f := range gfi.EdgeFactSet(pb, sb) {
+				if (f.V == acq || gfi.resolveCell(f.V) == acq) && !f.Val {
+					return true // the losing side holds nothing
+				}
+			}
+			return false
+		})
+		c.Check(leak == nil, gcFn, in, "every path of GC() that won the isGCRunning try-lock releases it", "a path returns from GC() with the collector flag still set: no later Close or GC() ever collects again")
+	}
 }
 
 // Snapshot.Close (C06.c / C08.b): the retire block is decided by the
